@@ -474,7 +474,7 @@ Proof.
       * left. unfold srcs. apply in_app_iff. left. exact H.
     + left. unfold srcs. apply in_app_iff. right. cbn [x_rebuild_user xb xdacc] in H. rewrite ids_rebuild_user in H. exact H.
   - (* set role *)
-    unfold x_set_role, x_edit_role in H. unfold srcs in H. cbn [xb xdacc set_roles ids] in H.
+    unfold x_set_role, x_edit_role, x_edit_role_with in H. unfold srcs in H. cbn [xb xdacc set_roles ids] in H.
     rewrite in_app_iff in H. destruct H as [H|H].
     + destruct p as [u0|r0]; cbn [gx xu xr] in H.
       * left. unfold srcs. apply in_app_iff. left. exact H.
@@ -534,7 +534,7 @@ Proof.
     destruct (accepts _ _ _ _ _ _ _ _ _); cbn [fst]; [|rewrite xclock_load_user; lia].
     destruct (reloads _ _ _ _ _ _ _); [cbn [x_rebuild_user xclock]|]; apply Hp; apply xclock_load_user.
   - unfold x_set_user, x_edit_user. cbn [xclock x_rebuild_user]. destruct (_ || _); lia.
-  - unfold x_set_role, x_edit_role. cbn [xclock x_rebuild_role]. destruct (_ || _); lia.
+  - unfold x_set_role, x_edit_role, x_edit_role_with. cbn [xclock x_rebuild_role]. destruct (_ || _); lia.
   - unfold x_del_role, x_mark_deleted. destruct (roles _ r) as [rr|]; [|cbn; lia]. destruct (r_del rr); [cbn; lia|]. destruct pg; cbn [xclock x_rebuild_role]; lia.
   - unfold x_del_user. destruct (users _ u); cbn [xclock x_rebuild_user]; lia.
   - unfold x_load_role. cbn [x_rebuild_role xclock]. lia.
@@ -622,4 +622,35 @@ Lemma xwf_snoc_seq ops o x s : xwf x (ops ++ [o]) = true -> op_seq o = Some s ->
 Proof.
   intros W Hs. destruct (xwf_app ops [o] x W) as [A [B _]]. split; [exact A|].
   cbn [xwf] in B. rewrite Hs, andb_true_r in B. apply N.ltb_lt. exact B.
+Qed.
+
+(* ---------- the channel history of a role across soft delete and re-creation ---------- *)
+(* DeleteRole (soft) records, for every channel the role had, the interval [since, delete sequence] as its last entry *)
+Lemma deleted_role_records_intervals xs r rr s c dflt :
+  roles (xb (x_rebuild_role xs r)) r = Some rr -> r_del rr = false ->
+  let g := xr (x_rebuild_role xs r) r in
+  let g' := xr (x_del_role xs r false s) r in
+  (In c (keys (g_c g)) -> last (entries (g_hist g') c) dflt = (since (g_c g) c, s)) /\
+  (~ In c (keys (g_c g)) -> entries (g_hist g') c = entries (g_hist g) c) /\
+  g_inv g' = s.
+Proof.
+  intros Er Ed g g'. subst g'. unfold x_del_role, x_mark_deleted. rewrite Er, Ed. cbn [xr]. rewrite upd_same. cbn [g_hist g_inv].
+  destruct (calc_history_spec s (g_c g) [] (g_hist g) c dflt) as [H1 H2].
+  split; [intros Hin; apply H1; [exact Hin | reflexivity]|]. split; [intros Hn; apply H2; left; exact Hn | reflexivity].
+Qed.
+
+(* NewRole / NewRoleNoChannels (3cadf88): re-creating a soft-deleted role keeps its whole channel history, in the default
+   and in a named collection; the re-created role starts valid or invalidated at the edit, never with a stale cache *)
+Lemma recreated_role_keeps_history xs r rr c s :
+  roles (xb xs) r = Some rr -> r_del rr = true ->
+  g_hist (xr (x_set_role xs r c s) r) = g_hist (xr xs r).
+Proof.
+  intros Er Ed. unfold x_set_role.
+  assert (E1 : roles (xb (x_rebuild_role xs r)) r = Some rr).
+  { unfold x_rebuild_role. cbn [xb]. rewrite roles_after_rebuild. unfold rebuild_role. rewrite Er, Ed. reflexivity. }
+  assert (E2 : xr (x_rebuild_role xs r) r = xr xs r).
+  { unfold x_rebuild_role. cbn [xr]. rewrite upd_same. unfold role_deco_rebuilt. rewrite Er, Ed. reflexivity. }
+  unfold x_edit_role, x_edit_role_with. rewrite E1, Ed. cbn [xr negb andb]. rewrite upd_same, E2.
+  unfold recreate_keeps_named_history. rewrite orb_true_r.
+  destruct c as [cs|]; [|reflexivity]. cbn [r_xch]. destruct (negb (set_eqb cs [])); reflexivity.
 Qed.
